@@ -485,3 +485,14 @@ def replay(w, rec):
     finally:
         twin.close()
         seams.uninstall()
+
+
+# workloads added after the seventh round of seeded changes (DESIGN section 9): part of the rule of this check
+_RULE_ADDENDUM = 'relaxed values read through container handles; discrete scalar variables whose names contain commas'
+_info_base = info
+
+
+def info(tier):  # noqa: F811
+    d = _info_base(tier)
+    d["rule"] = d["rule"] + "; " + _RULE_ADDENDUM
+    return d
